@@ -459,6 +459,14 @@ class Engine:
         return "normal"
 
     def check_raise(self, I, st, fr, c, pe):
+        alts = pe.exc.fields.pop("__alts", None) if isinstance(pe.exc.fields, dict) else None
+        for other in alts or []:
+            from .values import VExc as _VExc
+            from .symexec import PyExc as _PyExc
+            self.check_raise_one(I, st, fr, c, _PyExc(_VExc(other, []), pe.site))
+        self.check_raise_one(I, st, fr, c, pe)
+
+    def check_raise_one(self, I, st, fr, c, pe):
         qualname = fr.finfo.qualname
         raises = c.get("raises") or {}
         cls = pe.exc.cls
